@@ -10,6 +10,7 @@ pub mod props;
 pub mod refcmp;
 pub mod refmodel;
 pub mod runner;
+pub mod serve;
 pub mod tol;
 
 pub fn verif_root() -> String {
